@@ -153,6 +153,14 @@ def run(idx: Index, rep: Report, tier: str) -> None:
     except (ValueError, IndexError):
         ok = False
     if not ok:
+        # wherever they stand: one store into each map, mirrored (otn[item] = X, nto[X] = item), and X is what is returned
+        st_ = [a for a in walk_no_nested(gm.node) if isinstance(a, ast.Assign) and isinstance(a.targets[0], ast.Subscript) and isinstance(a.targets[0].value, ast.Attribute) and a.targets[0].value.attr in writers]
+        if len(st_) == 2 and {x.targets[0].value.attr for x in st_} == set(writers):
+            o_ = next(x for x in st_ if x.targets[0].value.attr == "otn_renamings")
+            n__ = next(x for x in st_ if x.targets[0].value.attr == "nto_renamings")
+            last_ret = [r for r in walk_no_nested(gm.node) if isinstance(r, ast.Return) and r.value is not None]
+            ok = norm(o_.targets[0].slice) == norm(n__.value) and norm(n__.targets[0].slice) == norm(o_.value) and bool(last_ret) and norm(last_ret[-1].value) == norm(o_.value)
+    if not ok:
         # the pair of stores inside a helper of its own: both maps are written in one helper, with mirrored key / value,
         # and _get_mangled_name returns the name it handed to that helper
         for hq in sorted(own_helpers):
@@ -171,10 +179,28 @@ def run(idx: Index, rep: Report, tier: str) -> None:
     rep.check(ok, rule2, "both directions are stored together and the stored name is the one returned", gm.loc(), construct="otn[item] = new_name; nto[new_name] = item; return new_name", detail="" if ok else "item -> name and name -> item are not updated as a pair", function=gm.qualname)
     first = [s for s in gm.node.body if isinstance(s, ast.If)][0]
     ok = norm(first.test) == "item in self.otn_renamings" and norm(first.body[0]) == "return self.otn_renamings[item]"
-    rep.check(ok, rule2, "an item that already has a name keeps it", gm.loc(first), construct=norm(first.test), function=gm.qualname)
+    if not ok:
+        # `known = self.otn_renamings.get(item); if known is not None: return known` and the like: an early return of
+        # what the item -> name map holds for the item, before anything is stored
+        stores_ = [a for a in walk_no_nested(gm.node) if isinstance(a, ast.Assign) and isinstance(a.targets[0], ast.Subscript) and "renamings" in norm(a.targets[0].value)]
+        first_store = min((a.lineno for a in stores_), default=10 ** 9)
+        held = {a.targets[0].id for a in walk_no_nested(gm.node) if isinstance(a, ast.Assign) and isinstance(a.targets[0], ast.Name) and norm(a.value) in ("self.otn_renamings.get(item)", "self.otn_renamings.get(item, None)")}
+        early = [r for r in walk_no_nested(gm.node) if isinstance(r, ast.Return) and r.value is not None and r.lineno < first_store and (norm(r.value) in held or norm(r.value) == "self.otn_renamings[item]")]
+        ok = bool(early)
+        if ok:
+            first = early[0]
+    rep.check(ok, rule2, "an item that already has a name keeps it", gm.loc(first), construct=norm(first.test) if isinstance(first, ast.If) else norm(first), function=gm.qualname)
     wl = [w for w in walk_no_nested(gm.node) if isinstance(w, ast.While)]
     ok = bool(wl) and "self.problem.has_name(new_name)" in norm(wl[0].test) and "new_name in self.nto_renamings" in norm(wl[0].test) and isinstance(wl[0].test, ast.BoolOp) and isinstance(wl[0].test.op, ast.Or)
-    rep.check(ok, rule2, "a changed name is re-tested against the problem's names and the names already handed out", gm.loc(wl[0]) if wl else gm.loc(), construct=norm(wl[0].test) if wl else "", detail="" if ok else "two distinct elements can receive the same PDDL name", function=gm.qualname)
+    other_iteration = [x for x in ast.walk(gm.node) if isinstance(x, (ast.For, ast.GeneratorExp, ast.ListComp, ast.SetComp)) or (isinstance(x, ast.Call) and call_name(x) in ("next", "filter", "dropwhile", "takewhile"))]
+    if not wl and other_iteration:
+        # the search for a free name is written without a `while` (next() over candidates, …): this rule reads the loop
+        # form only. With no iteration at all in the function there is no search, which is reported below.
+        both = all(any(t in norm(x) for x in other_iteration) for t in ("has_name", "nto_renamings"))
+        rep.inconclusive(rule2, "a changed name is re-tested against the problem's names and the names already handed out", gm.loc(), construct="no while loop: candidates are searched another way" + (" (tests has_name and nto_renamings)" if both else ""), detail="not decided: the rule reads the `while` form only", function=gm.qualname)
+        ok = None
+    if ok is not None:
+      rep.check(ok, rule2, "a changed name is re-tested against the problem's names and the names already handed out", gm.loc(wl[0]) if wl else gm.loc(), construct=norm(wl[0].test) if wl else "", detail="" if ok else "two distinct elements can receive the same PDDL name", function=gm.qualname)
     cfg = cfg_of(gm)
     keep = [n for n in cfg.nodes if isinstance(n.ast, ast.Assign) and norm(n.ast) == "new_name = tmp_name"]
     ok = False
@@ -182,7 +208,10 @@ def run(idx: Index, rep: Report, tier: str) -> None:
         gs = [(norm(t.ast), o) for t, o in guards_dominating(cfg, n)]
         if any("tmp_name == original_name" in t and "tmp_name not in self.nto_renamings" in t and o for t, o in gs):
             ok = True
-    rep.check(ok, rule2, "a name is kept as is only if it is unchanged and not yet handed out", gm.loc(keep[0].ast) if keep else gm.loc(), construct="tmp_name == original_name and tmp_name not in self.nto_renamings", function=gm.qualname)
+    if not keep and not wl and other_iteration:
+        rep.inconclusive(rule2, "a name is kept as is only if it is unchanged and not yet handed out", gm.loc(), construct="the roles of the locals are recognised through the `while` form only", detail="not decided", function=gm.qualname)
+    else:
+      rep.check(ok, rule2, "a name is kept as is only if it is unchanged and not yet handed out", gm.loc(keep[0].ast) if keep else gm.loc(), construct="tmp_name == original_name and tmp_name not in self.nto_renamings", function=gm.qualname)
     for q, mname in ((PW + ".PDDLWriter.get_item_named", "nto_renamings"), (PW + ".PDDLWriter.get_pddl_name", "otn_renamings")):
         f = idx.func(q)
         rets = [r for r in walk_no_nested(f.node) if isinstance(r, ast.Return)]
